@@ -21,8 +21,10 @@ with atheris.instrument_imports(include=["pyjelly"]):
     from pyjelly.integrations.generic import parse as gparse
     from pyjelly.integrations.rdflib import parse as rparse
 
-TARGET = sys.argv[1]
-del sys.argv[1]
+TARGET = None
+if __name__ == "__main__":
+    TARGET = sys.argv[1]
+    del sys.argv[1]
 
 
 def run(data: bytes):
